@@ -25,7 +25,7 @@ DTYPES = ("float32", "float64", "uint8")
 
 def REQUIRED(tier):
     return ["running_filter", "running:w>n", "running:even_w", "downsample_1d", "downsample_1d:factor==n", "downsample_2d", "downsample_2d_flat", "kernel_2d_flat",
-            "kernel_parallel", "overflow_probe", "detrend", "deredden", "ts_downsample", "block_downsample", "canary_audits", "input_unchanged_checks", "deredden_exact_after_fast", "detrend_long_series", "regime:2d_second_axis_over_4096", "running_filter_long_series", "median_after_larger_block_of_another_type"]
+            "kernel_parallel", "overflow_probe", "detrend", "deredden", "ts_downsample", "block_downsample", "canary_audits", "input_unchanged_checks", "deredden_exact_after_fast", "detrend_long_series", "regime:2d_second_axis_over_4096", "running_filter_long_series", "median_after_larger_block_of_another_type", "running:level_beyond_single_precision"]
 
 
 def EXHAUSTIVE(tier):
@@ -78,8 +78,14 @@ def _running(case, ctx, ws=None, n=None):
 
     n = n or case["n"]
     rng = np.random.default_rng([case["seed"], n, 1])
-    for dt in DTYPES:
-        x = _data(rng, n, dt)
+    for dt in DTYPES + (("float64_high", "int64_high") if (ws or n % 4 == 0) else ()):
+        high = dt.endswith("_high")
+        if high:
+            # double-precision / wide-integer series on a level that single precision cannot resolve (2^30 + small integers): exact in float64
+            x = ((1 << 30) + rng.integers(-100, 101, size=n)).astype(dt[:-5])
+            ctx.count("running:level_beyond_single_precision")
+        else:
+            x = _data(rng, n, dt)
         x64 = x.astype(np.float64)
         for w in (ws or range(1, 51)):
             for method in ("mean", "median"):
@@ -109,6 +115,10 @@ def _running(case, ctx, ws=None, n=None):
                 if not np.array_equal(np.asarray(xin), x):
                     ctx.violation("input-modified:running_filter", f"n={n} w={w} {dt} {method}: the caller's array was changed in place", one)
                     return
+                if high and not np.all(np.abs(np.asarray(got, dtype=np.float64) - want) <= (1e-3 if method == "mean" else 0.0)):
+                    i = int(np.argmax(np.abs(np.asarray(got, dtype=np.float64) - want)))
+                    ctx.violation(f"running-values[{reg}]:level-beyond-single-precision", f"n={n} w={w} {dt} {method}: out[{i}]={np.asarray(got)[i]!r}, definition {want[i]!r} (the series is exact in double precision)", one)
+                    continue
                 if not _close(got, want, np.abs(x64).max(), w):
                     i = int(np.argmax(np.abs(np.asarray(got, dtype=np.float64) - want)))
                     ctx.violation(f"running-values[{reg}]", f"n={n} w={w} {dt} {method}: out[{i}]={np.asarray(got)[i]!r}, definition {want[i]!r}", one)
